@@ -4,7 +4,7 @@ from vf import gen, corecheck as cc, framework as fw, model_stash_become
 RULE = ("stash_become profile: a target module stashing told / published (NORMAL, LOW) events and trying to stash HIGH ones (descriptor "
         "events, HIGH subscription) from inside its handlers; m_mod_unstash(n) with n in {1,2,3,5,64,SIZE_MAX,0} around the stash size "
         "from handlers and from driver steps; become/unbecome (4 distinct handler functions) from both places; replays under a "
-        "different handler; pause/resume and stop/start cycles; a third of the scenarios with injected allocation failures (first allocation of an unstash / become call: clean refusal); stash_userdata profile: the subscription of a stashed event gets another user pointer before the unstash; both driving modes. "
+        "different handler; pause/resume and stop/start cycles; a third of the scenarios with injected allocation failures (first allocation of an unstash / become call: clean refusal); stash_corners profile: unstash refused for lack of a token several times in a row; stash kept over pause, dropped by a stop / poison pill that comes while PAUSED, restart, unstash. stash_userdata profile: the subscription of a stashed event gets another user pointer before the unstash; both driving modes. "
         + ("Oracle C16: FIFO of stashed event tokens per module; stash accepted iff RUNNING and not high-priority; unstash(n) returns "
            "min(n, stashed) and causes exactly one directly nested handler invocation (none if 0) carrying exactly the oldest events "
            "in stash order with unchanged content; refused unless RUNNING; stash empty after stop. non-trivial = scenario with an "
@@ -36,6 +36,13 @@ def run(tier):
         for m in ("loop", "dispatch"):
             c = cc.Case()
             c.sc, c.profile, c.mode, c.seed = sc, "stash_userdata", m, seed * 1000 + k
+            cases.append(c)
+
+    for k in range(20 if tier == "quick" else 400):
+        sc = gen.gen_stash_corners(seed * 1000 + k)
+        for m in ("loop", "dispatch"):
+            c = cc.Case()
+            c.sc, c.profile, c.mode, c.seed = sc, "stash_corners", m, seed * 1000 + k
             cases.append(c)
 
     def oracle(case):
